@@ -367,7 +367,11 @@ func replay(args []string) {
 	t := tape.Replay(rf.RunSeed, rf.Tape)
 	res := e.Run(t, eng.Opts{Trace: true})
 	class := rf.Property + "/" + rf.Rule
-	knownFindings = eng.LoadKnown("/verif/known_findings.json")
+	kd := os.Getenv("VERIF_DIR")
+	if kd == "" {
+		kd = "/verif"
+	}
+	knownFindings = eng.LoadKnown(filepath.Join(kd, "known_findings.json"))
 	if !*quiet {
 		for _, l := range res.Trace {
 			fmt.Println(l)
